@@ -454,12 +454,16 @@ def periodic_heartbeat_solicits_ack(facts, rep, rule):
         if a.place is not None:
             # follow copies to the boolean variable
             e = hf.eb.operand(a)
+            # `!final || x` and its De Morgan form `!(final && !x)`: strip the negations and ask for the matching constant
+            neg = False
+            while e[0] == "un" and e[1] == "Not":
+                e, neg = e[2], not neg
             if e[0] == "local":
                 for d in hf.mir.whole_defs(e[1]):
                     de = hf._def_expr(d)
-                    if de == ("const", 1) and nonfinal and hf.only_through([d[1]], nonfinal):
+                    if de == ("const", 0 if neg else 1) and nonfinal and hf.only_through([d[1]], nonfinal):
                         ok = True
-            elif e[0] == "un" and e[1] == "Not" and E.is_call(e[2], "HeartbeatSubmessage::final_flag"):
+            elif neg and E.is_call(e, "HeartbeatSubmessage::final_flag"):
                 ok = True
         rep.add(rule, h.sname, "a non-final heartbeat always sets must_send_acknacks", ok,
                 "must_send_acknacks is not forced to true on the final_flag()==false edge", h.loc(t.line))
